@@ -1,0 +1,24 @@
+//go:build verif
+
+package kv
+
+// Contracts for govc (see /verif/DESIGN.md). Compiled only with -tags verif.
+
+// C17 (scan path): collectVisibleValue walks the write records of one key from new to old.
+// advanceToNextUserKey is called exactly when the walk has DECIDED the key's answer; the
+// ghost counter records those decisions. Proved: a decision is never taken on a rollback
+// marker or a lock-only record (they are looked through, like in the point-read path), a
+// value is returned only on a decision, and at most one decision is taken.
+//@ ghost var scanDecisions Int
+//@ func advanceToNextUserKey
+//@   trusted
+//@   ghost scanDecisions = scanDecisions + 1
+//@   modifies nothing
+
+//@ func collectVisibleValue
+//@   property C17
+//@   requires [iterator-present] iter != nil
+//@   exit [markers-are-looked-through] scanDecisions > old(scanDecisions) ==> int32(write.Kind) != 3 && int32(write.Kind) != 2
+//@   ensures [value-only-on-a-decision] result1 ==> scanDecisions == old(scanDecisions) + 1
+//@   ensures [at-most-one-decision] scanDecisions <= old(scanDecisions) + 1
+//@   loop 1 invariant [undecided-so-far] scanDecisions == old(scanDecisions)
